@@ -21,6 +21,9 @@ Domain restrictions enforced by construction (the property's quantifier):
     now and then one level down inside a regular package, where importlib does see a namespace
     package: the check's namespace filter takes those names out, they only have to do no harm.
     An empty directory is the key ``'dir/'``,
+  * *level decoys*: one module name placed in a deep package, in each of its ancestors and at top
+    level, so that a relative import resolved at the wrong level lands on another existing file;
+    every .py file ends with a line ``MARK_r<root>_<path> = 1``, a name no other file defines,
   * at most MAX_FILES files per tree, packages nested to depth MAX_DEPTH.
 
 What the generator aims at: the same dotted name in different roots (module in one, package
@@ -213,10 +216,52 @@ def _gen_tree(rng, compiled=None):
     if rng.random() < 0.45:
         for _ in range(rng.choice((1, 1, 2))):
             _add_bare_dir(rng, roots, bare, compiled if compiled is not None else COMPILED)
+    if rng.random() < 0.45:
+        _add_level_decoys(rng, roots, bare)
+    for i, files in enumerate(roots):
+        for rel in files:
+            if rel.endswith('.py'):
+                files[rel] += '%s = 1\n' % marker_of(i, rel)
     tree = {'roots': roots}
     if bare:
         tree['bare'] = bare
     return tree
+
+
+def marker_of(root, rel):
+    return 'MARK_r%d_%s' % (root, rel[:-3].replace('/', '__'))
+
+
+def _stems_in(files, d):
+    """names taken in directory ``d`` ('' = top level) of one root"""
+    pre = d + '/' if d else ''
+    return {rel[len(pre):].split('/')[0].split('.')[0] for rel in files if rel.startswith(pre)}
+
+
+def _add_level_decoys(rng, roots, bare):
+    """the same module name in a deep package, in every ancestor package and at top level."""
+    i = rng.randrange(len(roots))
+    files = roots[i]
+    skip = [b for k, b in bare if k == i]
+    chains = sorted({rel.rsplit('/', 1)[0] for rel in files if rel.endswith('/__init__.py')
+                     and not any(rel.startswith(b + '/') for b in skip)},
+                    key=lambda d: (-d.count('/'), d))
+    if not chains:
+        return
+    deep = [d for d in chains if d.count('/') == chains[0].count('/')]
+    d = rng.choice(deep)
+    name = rng.choice(SUB_POOL + ['x', 'x'])
+    parts = d.split('/')
+    total = sum(len(f) for f in roots)
+    for k in range(len(parts), -1, -1):
+        anc = '/'.join(parts[:k])
+        if total >= MAX_FILES - 1:
+            break
+        if name in _stems_in(files, anc):
+            continue
+        rel = (anc + '/' if anc else '') + name + '.py'
+        files[rel] = 'NAME = %r\nattr_%s = 1\n' % (rel[:-3].replace('/', '.'), name)
+        total += 1
 
 
 def _add_bare_dir(rng, roots, bare, compiled):
@@ -567,3 +612,104 @@ def relative_specs(rng, tree, root, rel):
         out.append(dots + rng.choice(leafs))
         out.append(dots + 'zq_absent')
     return out
+
+
+def toplevel_names(text):
+    """names a module text binds at top level (generated texts: plain assignments)"""
+    import ast
+    out = set()
+    try:
+        body = ast.parse(text).body
+    except SyntaxError:
+        return out
+    for st in body:
+        if isinstance(st, ast.Assign):
+            for t in st.targets:
+                if isinstance(t, ast.Name):
+                    out.add(t.id)
+        elif isinstance(st, (ast.FunctionDef, ast.ClassDef, ast.AsyncFunctionDef)):
+            out.add(st.name)
+    return out
+
+
+def use_queries(rng, tree, root, rel, limits=(14, 8, 8, 6)):
+    """Import statements for one importing file, each followed by a USE of the bound name.
+
+    -> list of dicts {'form', 'kind': 'from'|'import', 'module', 'name', 'alias', 'use'}:
+       from-dots-only   'from <dots> import sub'            levels 1..depth+2 (>= 4 where depth allows)
+       from-dots-pkg    'from <dots>pkg import sub'
+       import-dotted    'import a.b.c'  (use: a.b.c, or a prefix of it)
+       from-abs-as      'from a.b import c as d'
+    The candidate names are those that exist (as module or package) at ANY level of the importing
+    file's ancestry or at top level, so a wrong level finds something else; plus an absent name and
+    an attribute of the package's __init__."""
+    fb = file_backed(tree)
+    pkg = package_of(rel)
+    parts = pkg.split('.') if pkg else []
+    depth = len(parts)
+    names = sorted(fb)
+    kids_of = {}
+    for n in names:
+        par, _, leaf = n.rpartition('.')
+        kids_of.setdefault(par, set()).add(leaf)
+    anc = ['.'.join(parts[:k]) for k in range(depth, -1, -1)]          # own package ... '' (top level)
+    pool = set()
+    for a in anc:
+        pool |= kids_of.get(a, set())
+    multi = sorted(n for n in pool if sum(1 for a in anc if n in kids_of.get(a, ())) > 1)
+    pool = sorted(pool)
+    a_dots, a_pkg, a_imp, a_as = [], [], [], []
+    if depth:
+        for level in range(1, depth + 3):
+            dots = '.' * level
+            base = '.'.join(parts[:depth - (level - 1)]) if level <= depth else None
+            cands = list(multi) + (rng.sample(pool, min(2, len(pool))) if pool else [])
+            if base is not None:
+                here = sorted(kids_of.get(base, ()))
+                cands += rng.sample(here, min(2, len(here)))
+            cands += ['zq_absent', 'pkg_attr']
+            seen = set()
+            for c in cands:
+                if c in seen:
+                    continue
+                seen.add(c)
+                a_dots.append({'form': 'from-dots-only', 'kind': 'from', 'module': dots, 'name': c, 'alias': None, 'use': c})
+            if base is not None:
+                for sub in sorted(kids_of.get(base, ())):
+                    full = (base + '.' + sub) if base else sub
+                    for c in sorted(kids_of.get(full, ())):
+                        a_pkg.append({'form': 'from-dots-pkg', 'kind': 'from', 'module': dots + sub, 'name': c,
+                                      'alias': None, 'use': c})
+    for n in names:
+        if '.' in n:
+            a_imp.append({'form': 'import-dotted', 'kind': 'import', 'module': n, 'name': None, 'alias': None, 'use': n})
+            pre = n.rpartition('.')[0]
+            if rng.random() < 0.3:
+                a_imp.append({'form': 'import-dotted', 'kind': 'import', 'module': n, 'name': None, 'alias': None, 'use': pre})
+            if rng.random() < 0.3:
+                a_imp.append({'form': 'import-dotted', 'kind': 'import', 'module': n, 'name': None, 'alias': 'w', 'use': 'w'})
+            par, _, leaf = n.rpartition('.')
+            a_as.append({'form': 'from-abs-as', 'kind': 'from', 'module': par, 'name': leaf, 'alias': 'd', 'use': 'd'})
+    a_imp.append({'form': 'import-dotted', 'kind': 'import', 'module': 'zq_absent.m', 'name': None, 'alias': None, 'use': 'zq_absent.m'})
+    if names:
+        n = rng.choice(names)
+        a_imp.append({'form': 'import-dotted', 'kind': 'import', 'module': n + '.zq_absent', 'name': None, 'alias': None,
+                      'use': n + '.zq_absent'})
+        a_as.append({'form': 'from-abs-as', 'kind': 'from', 'module': n, 'name': 'zq_absent', 'alias': 'd', 'use': 'd'})
+        a_as.append({'form': 'from-abs-as', 'kind': 'from', 'module': n, 'name': 'NAME', 'alias': 'd', 'use': 'd'})
+    out = []
+    # level >= 2 first: that is where a collapsed level shows
+    high = [q for q in a_dots if len(q['module']) >= 2]
+    low = [q for q in a_dots if len(q['module']) < 2]
+    pick = rng.sample(high, min(limits[0] - 3, len(high)))
+    pick += rng.sample(low, min(limits[0] - len(pick), len(low)))
+    out += pick
+    for group, lim in ((a_pkg, limits[1]), (a_imp, limits[2]), (a_as, limits[3])):
+        out += rng.sample(group, min(lim, len(group)))
+    return out
+
+
+def statement_of(q):
+    if q['kind'] == 'from':
+        return 'from %s import %s%s' % (q['module'], q['name'], ' as ' + q['alias'] if q['alias'] else '')
+    return 'import %s%s' % (q['module'], ' as ' + q['alias'] if q['alias'] else '')
